@@ -94,3 +94,42 @@ def register(reg):
       "handling of repeated keys is), object keys are str; first_available_key's unbounded loop has fuel #columns+1 in the model "
       "(exhaustion would surface as a model error in the diff); two known findings are keyed by signature in known_findings.json.",
       "Lean 4 theorems by mutual induction over the JSON value (custom induction principle) + differential correspondence + direct oracle")
+
+  reg("C37", "proof",
+      "textbuilder.py (Patch, validate_patch, Text, Replacer incl. sorted()/offset tables/bisect_right, Combiner) is modelled "
+      "line by line over Python ints and slices (negative indices, clamping, CPython's binary search). Proved for all texts, "
+      "patch sets and builder trees: sorted() of a non-overlapping set is ascending (sorted_is_ascending); the Replacer's text "
+      "= the patches applied directly (replacer_text_eq_applyPatches) and text outside patches is copied unchanged "
+      "(only_patched_changed); positions/patches inside a copied segment map back to exactly the identical input characters "
+      "(input_pos_exact, replacer_mapback_copied); Combiner: inside one part = shifted by the part's offset, spanning parts = "
+      "ValueError, every accepted patch fits its part (combiner_inside, combiner_spanning_refused, combiner_accept_sound); "
+      "nested trees by induction: a patch copied all the way down (relation Traces) comes back as the same characters of its "
+      "leaf (tree_mapback_exact), every returned triple is a leaf with old_text = leaf slice (tree_mapback_sound), the Text "
+      "assert / table indexing never fail (tree_mapback_never_asserts). The full 'every position of a copied segment maps "
+      "back exactly' is FALSE at the right end of a segment followed by a pure deletion: negation proved with a witness "
+      "(input_pos_exact_full_is_false, input_pos_at_deletion) and replayed on the real code (known finding). "
+      "Differentially validated only: that the model equals the real classes (texts, constructor exceptions, every node's "
+      "offset tables, every map_back_patch result) on exhaustive small scopes + random trees of depth <=4; the oracle "
+      "(character provenance + round trip through the real code) is independent of the model.",
+      "strings = sequences of Unicode scalar values; Text values = opaque tags; bytes parts of a Combiner are modelled "
+      "(map-back into one raises AttributeError) but outside the property; make_regexp_patches / map_back_offset not covered.",
+      "Lean 4 theorems (structural/mutual induction over patch lists and nested builder trees) + differential correspondence")
+
+  reg("C20", "proof",
+      "relabeling.py is transcribed ONCE, generically over the key type (GristModel/Relabel.lean). Proved for every lawful "
+      "linear order: bisect_left_spec, group_insertions_spec (each request counted at bisect_left, i.e. before equal existing "
+      "keys), ungroup_slot/ungroup_order (new keys handed out in request order, ties by request index), "
+      "apply_adjustments_order, checker_sound + checker_complete (the neighbour-comparison checker validOutcome decides the clauses: existing "
+      "order kept, all positions finite and pairwise distinct, placement before equal existing rows, request order), and "
+      "prepare_inserts_partial (a normal return on which no _adjust_range/_adjust_all step ran satisfies all clauses, under "
+      "stated get_range laws). ONLY differentially validated: the crowded-neighbourhood relabeling path and everything "
+      "numeric - the same Lean code instantiated at Float is compared bit-for-bit (IEEE bit patterns, exception class, number "
+      "of relabel steps) with relabeling.prepare_inserts on nextfloat chains, duplicates, +-inf, 0, negatives, 2^52/2^53 scale, "
+      "subnormals and on multi-step histories; validOutcome (Lean) and an independent naive oracle (Python) judge every real "
+      "outcome and corrupted outcomes. Totality is NOT proved: three classes of AssertionError on the unchanged tree are "
+      "recorded in known_findings.json.",
+      "existing keys sorted, no NaN; full clauses when existing positions are finite and pairwise distinct (weaker set for "
+      "legacy duplicates/zero/negatives, +-inf existing only differential); float < assumed a linear order on non-NaN values; "
+      "get_range laws (length, monotone, start <= k < end), begin+count+1 >= begin validated on the real functions each run; "
+      "quick: ~7k cases + 9k checker evaluations; thorough: 16 worker processes.",
+      "Lean 4 theorems over an abstract linear order + bit-for-bit differential of the Float instance + proved-sound checker on real outputs")
